@@ -230,6 +230,9 @@ func traceSpec(q string, limit int64, complexity int64) *spec {
 	if complexity > 0 {
 		entry = "search_complex"
 	}
+	if limit == 0 {
+		entry += "_nolimit"
+	}
 	return &spec{Lang: "traceql", Entry: entry, Query: q, Complexity: complexity, Make: func() (subject, error) {
 		script, err := traceql_parser.Parse(q)
 		if err != nil {
